@@ -36,7 +36,7 @@ class Workspace:
     """Scratch directory for rule/listing files; removed at exit."""
 
     def __init__(self) -> None:
-        base = "/dev/shm" if os.path.isdir("/dev/shm") and os.access("/dev/shm", os.W_OK) else None
+        base = os.environ.get("JV_WS_BASE") or ("/dev/shm" if os.path.isdir("/dev/shm") and os.access("/dev/shm", os.W_OK) else None)
         self.dir = tempfile.mkdtemp(prefix="jv_", dir=base)
         atexit.register(self.close)
         self._n = 0
